@@ -4,9 +4,13 @@ CONSTANTS
   ImrVals <- ImrFull
   MaxDepth = 9
   MaxNest = 2
+  AckOnReturn = FALSE
   RecordActs = FALSE
 INVARIANT DeliverOnlyIfEnabled
 INVARIANT FrameOnEntry
+INVARIANT EnteredForEnabledPending
+PROPERTY StatusNotLost
+PROPERTY StillOwed
 PROPERTY NoReentryWhileMasked
 PROPERTY PromptWhenEnabled
 PROPERTY HaltIdle
